@@ -80,7 +80,11 @@ class C03(pw.P21Check):
             if info.get("raw_line"):
                 # lexical kinds edit the rendered line of the target
                 lines = [(k, info["raw_line"](toks) if k == tkey else toks) for k, toks in lines]
-            seps = {k: v for k, v in rn["seps"].items() if not (k.rsplit(":", 1)[0] == tkey and "/*" in v)}
+            # (comments before the record and at its head - after the instance name, after '=' - keep their place under every
+            # structural corruption: a record the reader has to skip is skipped with its comments, whatever they contain)
+            head_ok = not info.get("raw_line")
+            seps = {k: v for k, v in rn["seps"].items()
+                    if not (k.rsplit(":", 1)[0] == tkey and "/*" in v and not (head_ok and int(k.rsplit(":", 1)[1]) in (-1, 0, 1)))}
             files["bad.p21"] = pm.render(lines, seps, rn.get("eol", "\n"), rn.get("spell"))
             info = {k: v for k, v in info.items() if k != "raw_line"}
             plan["applied"] = info
